@@ -95,7 +95,7 @@ def decode_value(typ, width, res, raw):
         val = chr(raw)
     else:
         val = raw
-    if typ not in ("CHA", "STR") and res not in (0, 1):
+    if typ not in ("CHA", "STR") and res not in (0, 1, None):
         val = val * res
     return val
 
@@ -118,8 +118,8 @@ class Builder:
     """Walks one definition, choosing raw values, laying out bits, predicting attributes."""
 
     def __init__(self, identity, rng, vstrat="random", cstrat="small", mstrat="random",
-                 cap=None, force=None, maxcells=64, pad1=False, source=None):
-        defs, fields = tables()
+                 cap=None, force=None, maxcells=64, pad1=False, source=None, tabs=None):
+        defs, fields = tabs if tabs is not None else tables()
         self.identity = identity
         self.pdict = defs[identity]
         self.F = fields
@@ -402,14 +402,14 @@ class Builder:
 
 
 def build(identity, rng, vstrat="random", cstrat="small", mstrat="random", force=None,
-          maxcells=64, pad1=False):
+          maxcells=64, pad1=False, tabs=None):
     """Build one reference message, shrinking counters until it fits in 1023 bytes."""
     cap = None
     state = rng.getstate()
     for _ in range(40):
         try:
             rng.setstate(state)
-            return Builder(identity, rng, vstrat, cstrat, mstrat, cap, force, maxcells, pad1).build()
+            return Builder(identity, rng, vstrat, cstrat, mstrat, cap, force, maxcells, pad1, tabs=tabs).build()
         except TooLong:
             if cap is None:
                 cap = 255
@@ -469,4 +469,30 @@ def compare(enc, msg, check_labels=False):
             continue
         if not values_equal(gd[n], v):
             return f"attribute {n}: parsed {gd[n]!r}, bits encode {v!r}"
+    return None
+
+
+def compare_pinned(enc, msg, fields):
+    """Compare a parsed message with an expectation built from PINNED layouts (vf.stdlayout).
+    Fields whose resolution is not pinned (None) are compared by sign and zero-ness only."""
+    got = dict(public_attrs(msg))
+    ed = {n: (v, k) for n, v, k in enc.expected}
+    missing = [n for n in ed if n not in got]
+    extra = [n for n in got if n not in ed]
+    if missing or extra:
+        return f"attribute names differ from the standard layout: missing {missing[:6]} extra {extra[:6]}"
+    resof = {}
+    for f in enc.fields:
+        resof[f["name"] if f["typ"] != "STR" else f["key"]] = f.get("res", 0)
+    for n, (v, k) in ed.items():
+        if k == "label":
+            continue
+        g = got[n]
+        if resof.get(n, 0) is None:
+            if isinstance(g, (int, float)) and not isinstance(g, bool):
+                if (g > 0) != (v > 0) or (g < 0) != (v < 0):
+                    return f"attribute {n}: parsed {g!r}, standard representation gives sign of {v!r}"
+            continue
+        if not values_equal(g, v):
+            return f"attribute {n}: parsed {g!r}, standard layout encodes {v!r}"
     return None
